@@ -4,7 +4,7 @@ id=$1; prop=$2; shift 2
 cd /verif || exit 2
 git -C /repo status --short | grep -q . && { echo "repo not clean"; exit 2; }
 git -C /repo apply /verif/seeded/$id/patch.diff || exit 2
-timeout 1500 ./check $prop "$@" 2>&1 | grep -E "VIOLATION|KNOWN|tier=|Traceback|Error" | cut -c1-260
+timeout 1500 ./check $prop "$@" 2>&1 | grep -aE "VIOLATION|KNOWN|tier=|Traceback|Error" | cut -c1-260
 git -C /repo checkout -- . 
 rm -rf /repo/src/execnet/__pycache__
 git -C /repo status --short | head -3
